@@ -330,6 +330,7 @@ fn enums(a: &ShardArgs) {
         t.done(4);
     }
     errors(a);
+    attributes(a);
     // ---- both directions exist: identity
     round_trip!(a, "Variation", ffi::Variation, Variation);
     round_trip!(a, "AppDecodeLevel", ffi::AppDecodeLevel, dnp3::decode::AppDecodeLevel);
@@ -524,6 +525,89 @@ fn errors(a: &ShardArgs) {
         }
         out::distinct("conv/ParamError");
     }
+}
+
+/// device attribute enumerations: exhaustive variant lists (the match inside the macro stops compiling when the
+/// library gains a variant), converted and compared by name
+fn attributes(a: &ShardArgs) {
+    use dnp3::app::attr::*;
+    macro_rules! attr_enum {
+        ($name:literal, $native:ident, $ffi:ty, [$($v:ident),* $(,)?]) => {{
+            let all = [$($native::$v),*];
+            for x in &all {
+                match x {
+                    $($native::$v => {})*
+                }
+            }
+            let n = all.len();
+            native_to_ffi!(a, $name, all, $ffi, n, &[], &[]);
+        }};
+    }
+    attr_enum!("VariationListAttr", VariationListAttr, ffi::VariationListAttr, [ListOfVariations]);
+    attr_enum!("OctetStringAttr", OctetStringAttr, ffi::OctetStringAttr, [ConfigDigest]);
+    attr_enum!(
+        "StringAttr",
+        StringAttr,
+        ffi::StringAttr,
+        [
+            ConfigId,
+            ConfigVersion,
+            ConfigDigestAlgorithm,
+            MasterResourceId,
+            UserAssignedSecondaryOperatorName,
+            UserAssignedPrimaryOperatorName,
+            UserAssignedSystemName,
+            UserSpecificAttributes,
+            DeviceManufacturerSoftwareVersion,
+            DeviceManufacturerHardwareVersion,
+            UserAssignedOwnerName,
+            UserAssignedLocation,
+            UserAssignedId,
+            UserAssignedDeviceName,
+            DeviceSerialNumber,
+            DeviceSubsetAndConformance,
+            ProductNameAndModel,
+            DeviceManufacturersName
+        ]
+    );
+    attr_enum!(
+        "UIntAttr",
+        UIntAttr,
+        ffi::UintAttr,
+        [
+            SecureAuthVersion,
+            NumSecurityStatsPerAssoc,
+            NumMasterDefinedDataSetProto,
+            NumOutstationDefinedDataSetProto,
+            NumMasterDefinedDataSets,
+            NumOutstationDefinedDataSets,
+            MaxBinaryOutputPerRequest,
+            LocalTimingAccuracy,
+            DurationOfTimeAccuracy,
+            MaxAnalogOutputIndex,
+            NumAnalogOutputs,
+            MaxBinaryOutputIndex,
+            NumBinaryOutputs,
+            MaxCounterIndex,
+            NumCounter,
+            MaxAnalogInputIndex,
+            NumAnalogInput,
+            MaxDoubleBitBinaryInputIndex,
+            NumDoubleBitBinaryInput,
+            MaxBinaryInputIndex,
+            NumBinaryInput,
+            MaxTxFragmentSize,
+            MaxRxFragmentSize
+        ]
+    );
+    attr_enum!("FloatAttr", FloatAttr, ffi::FloatAttr, [DeviceLocationAltitude, DeviceLocationLongitude, DeviceLocationLatitude]);
+    attr_enum!(
+        "BoolAttr",
+        BoolAttr,
+        ffi::BoolAttr,
+        [SupportsAnalogOutputEvents, SupportsBinaryOutputEvents, SupportsFrozenCounterEvents, SupportsFrozenCounters, SupportsCounterEvents, SupportsFrozenAnalogInputs, SupportsAnalogInputEvents, SupportsDoubleBitBinaryInputEvents, SupportsBinaryInputEvents]
+    );
+    attr_enum!("TimeAttr", TimeAttr, ffi::TimeAttr, [ConfigBuildDate, ConfigLastChangeDate]);
 }
 
 fn time_of(q: c_int, v: u64) -> ffi::Timestamp {
@@ -746,6 +830,7 @@ fn structs(a: &ShardArgs) {
             viol(a, "field_lost", "AnalogInputConfig|deadband", format!("dead-band {db} converted to {} / {}", c.deadband, oc.deadband));
         }
     }
+    more_structs(a, &mut r);
     // file permissions: world / group / owner each with its own pattern, both directions
     {
         use dnp3::app::{PermissionSet, Permissions};
@@ -783,6 +868,149 @@ fn structs(a: &ShardArgs) {
         } else {
             out::count("round_trips_ok", 1);
         }
+    }
+}
+
+/// second batch of struct conversions: every field a distinct sentinel
+fn more_structs(a: &ShardArgs, r: &mut Rng) {
+    use std::time::Duration;
+    let dbg_has = |d: &dyn Debug, needles: &[String]| {
+        let t = format!("{d:?}");
+        needles.iter().all(|n| t.contains(n.as_str()))
+    };
+    // event buffer state reported to the application: eleven distinct counts
+    {
+        let n = dnp3::outstation::BufferState {
+            classes: dnp3::outstation::ClassCount { num_class_1: 1, num_class_2: 2, num_class_3: 3 },
+            types: dnp3::outstation::TypeCount { num_binary_input: 11, num_double_bit_binary_input: 12, num_binary_output_status: 13, num_counter: 14, num_frozen_counter: 15, num_analog: 16, num_analog_output_status: 17, num_octet_string: 18 },
+        };
+        let f: ffi::BufferState = n.into();
+        let got = [f.classes.num_class_1, f.classes.num_class_2, f.classes.num_class_3, f.types.num_binary_input, f.types.num_double_bit_binary_input, f.types.num_binary_output_status, f.types.num_counter, f.types.num_frozen_counter, f.types.num_analog, f.types.num_analog_output_status, f.types.num_octet_string];
+        out::eval(1);
+        if got != [1, 2, 3, 11, 12, 13, 14, 15, 16, 17, 18] {
+            viol(a, "field_lost", "BufferState", format!("buffer state counts arrive as {got:?}"));
+        } else {
+            out::count("struct_sentinels_ok", 1);
+        }
+    }
+    // outstation features: one at a time
+    for k in 0..4 {
+        let b = |i: usize| i == k;
+        let f = ffi::OutstationFeatures { self_address: b(0), broadcast: b(1), unsolicited: b(2), respond_to_any_master: b(3) };
+        let n: dnp3::outstation::Features = (&f).into();
+        let on = |x: dnp3::outstation::Feature| matches!(x, dnp3::outstation::Feature::Enabled);
+        let got = [on(n.self_address), on(n.broadcast), on(n.unsolicited), on(n.respond_to_any_master)];
+        out::eval(1);
+        if (0..4).any(|i| got[i] != b(i)) {
+            viol(a, "field_lost", &format!("OutstationFeatures|{k}"), format!("feature {k} converted to {n:?}"));
+        } else {
+            out::count("struct_sentinels_ok", 1);
+        }
+    }
+    // retry / connect strategies, file read configurations, open file, UTC timestamp
+    {
+        let f: ffi::RetryStrategy = ffi::RetryStrategyFields { min_delay: Duration::from_millis(123), max_delay: Duration::from_millis(45_678) }.into();
+        let n: dnp3::app::RetryStrategy = f.into();
+        out::eval(1);
+        if !dbg_has(&n, &["123ms".into(), "45.678s".into()]) {
+            viol(a, "field_lost", "RetryStrategy", format!("retry strategy (123 ms, 45678 ms) converted to {n:?}"));
+        } else {
+            out::count("struct_sentinels_ok", 1);
+        }
+        let f: ffi::ConnectStrategy = ffi::ConnectStrategyFields { min_connect_delay: Duration::from_millis(111), max_connect_delay: Duration::from_millis(22_222), reconnect_delay: Duration::from_millis(3_333) }.into();
+        let n: dnp3::app::ConnectStrategy = f.into();
+        let t = format!("{n:?}");
+        let pos = |x: &str| t.find(x);
+        out::eval(1);
+        if !(pos("111ms").is_some() && pos("22.222s").is_some() && pos("3.333s").is_some() && pos("111ms") < pos("22.222s") && pos("22.222s") < pos("3.333s")) {
+            viol(a, "field_lost", "ConnectStrategy", format!("connect strategy (111 ms, 22222 ms, 3333 ms) converted to {t}"));
+        } else {
+            out::count("struct_sentinels_ok", 1);
+        }
+        let n: dnp3::master::FileReadConfig = ffi::FileReadConfig { max_block_size: 777, max_file_size: 99_999 }.into();
+        let d: dnp3::master::DirReadConfig = ffi::DirReadConfig { max_block_size: 555, max_file_size: 88_888 }.into();
+        out::eval(2);
+        if n.max_block_size != 777 || n.max_file_size != 99_999 || d.max_block_size != 555 || d.max_file_size != 88_888 {
+            viol(a, "field_lost", "FileReadConfig", format!("file / directory read configuration converted to {n:?} / {d:?}"));
+        } else {
+            out::count("struct_sentinels_ok", 2);
+        }
+        for (valid, v) in [(true, 0u64), (true, 0x0000_FFFF_FFFF_FFFF), (false, 5), (true, r.u64() & 0x0000_FFFF_FFFF_FFFF)] {
+            let n: Option<Timestamp> = ffi::UtcTimestamp { value: v, is_valid: valid }.into();
+            out::eval(1);
+            if n.map(|t| t.raw_value()) != if valid { Some(v) } else { None } {
+                viol(a, "field_lost", "UtcTimestamp", format!("UTC timestamp (valid={valid}, {v}) converted to {n:?}"));
+            } else {
+                out::count("struct_sentinels_ok", 1);
+            }
+        }
+    }
+    // request header / control field: all 256 control octets through the library's own parser of the octet
+    for bits in 0..=255u8 {
+        let c = dnp3::verif::util::control_field_from(bits);
+        let f: ffi::ControlField = c.into();
+        let back = (f.fir as u8) << 7 | (f.fin as u8) << 6 | (f.con as u8) << 5 | (f.uns as u8) << 4 | (f.seq & 0x0F);
+        out::eval(1);
+        if back != bits {
+            viol(a, "field_lost", "ControlField", format!("control octet {bits:#04x} read back through the binding struct as {back:#04x}"));
+        } else {
+            out::count("control_fields_ok", 1);
+        }
+    }
+    // header info: every qualifier x flags, a sample of variations
+    {
+        let vars = variants::<ffi::Variation>();
+        let quals = [QualifierCode::Range8, QualifierCode::Range16, QualifierCode::AllObjects, QualifierCode::Count8, QualifierCode::Count16, QualifierCode::CountAndPrefix8, QualifierCode::CountAndPrefix16, QualifierCode::FreeFormat16];
+        for q in quals {
+            for (ev, fl) in [(false, false), (true, false), (false, true), (true, true)] {
+                let fv = r.pick(&vars).clone();
+                let nv: Variation = fv.clone().into();
+                let n = dnp3::verif::util::header_info(nv, q, ev, fl);
+                let f: ffi::HeaderInfo = n.into();
+                out::eval(1);
+                if f.variation() != fv || norm(&f.qualifier()) != norm(&q) || f.is_event() != ev || f.has_flags() != fl {
+                    viol(a, "field_lost", &format!("HeaderInfo|{}", norm(&q)), format!("header info ({nv:?}, {q:?}, event={ev}, flags={fl}) converted to ({:?}, {:?}, {}, {})", f.variation(), f.qualifier(), f.is_event(), f.has_flags()));
+                } else {
+                    out::count("header_infos_ok", 1);
+                }
+            }
+        }
+    }
+    // serial settings and TLS enumerations (present with the crate's default features)
+    #[cfg(feature = "serial")]
+    {
+        for db in variants::<ffi::DataBits>() {
+            for fc in variants::<ffi::FlowControl>() {
+                for pa in variants::<ffi::Parity>() {
+                    for sb in variants::<ffi::StopBits>() {
+                        let f: ffi::SerialSettings = ffi::SerialSettingsFields { baud_rate: 19_201, data_bits: db.clone(), flow_control: fc.clone(), parity: pa.clone(), stop_bits: sb.clone() }.into();
+                        let n: dnp3::serial::SerialSettings = f.into();
+                        out::eval(1);
+                        if n.baud_rate != 19_201 || norm(&n.data_bits) != norm(&db) || norm(&n.flow_control) != norm(&fc) || norm(&n.parity) != norm(&pa) || norm(&n.stop_bits) != norm(&sb) {
+                            viol(a, "name_mismatch", "SerialSettings", format!("serial settings ({db:?}, {fc:?}, {pa:?}, {sb:?}) converted to {n:?}"));
+                        } else {
+                            out::count("variants_map_to_namesake", 1);
+                        }
+                    }
+                }
+            }
+        }
+        out::distinct("conv/SerialSettings");
+        let wait = dnp3::serial::PortState::Wait(Duration::from_secs(1));
+        for (n, want) in [(dnp3::serial::PortState::Disabled, "disabled"), (wait, "wait"), (dnp3::serial::PortState::Open, "open"), (dnp3::serial::PortState::Shutdown, "shutdown")] {
+            let f: ffi::PortState = n.into();
+            out::eval(1);
+            if norm(&f) != want {
+                viol(a, "name_mismatch", &format!("PortState|{want}"), format!("{n:?} is converted to {f:?}"));
+            } else {
+                out::count("variants_map_to_namesake", 1);
+            }
+        }
+    }
+    #[cfg(feature = "enable-tls")]
+    {
+        ffi_to_native!(a, "MinTlsVersion", ffi::MinTlsVersion, dnp3::tcp::tls::MinTlsVersion, 2, &[]);
+        ffi_to_native!(a, "CertificateMode", ffi::CertificateMode, dnp3::tcp::tls::CertificateMode, 2, &[]);
     }
 }
 
